@@ -803,7 +803,7 @@ impl From<&Time> for Time {
 impl From<DateTime> for Time {
     fn from(value: DateTime) -> Self {
         Self {
-            nanoseconds: (value.as_nanos() % NANOS_PER_DAY as i128) as u64,
+            nanoseconds: value.as_nanos().rem_euclid(NANOS_PER_DAY as i128) as u64,
             offset: value.get_offset(),
         }
     }
@@ -811,7 +811,7 @@ impl From<DateTime> for Time {
 impl From<&DateTime> for Time {
     fn from(value: &DateTime) -> Self {
         Self {
-            nanoseconds: (value.as_nanos() % NANOS_PER_DAY as i128) as u64,
+            nanoseconds: value.as_nanos().rem_euclid(NANOS_PER_DAY as i128) as u64,
             offset: value.get_offset(),
         }
     }
